@@ -272,13 +272,15 @@ func NewWithVPN(c *Config, vpn *vpntypes.GenesisState, swapGS *swaptypes.Genesis
 			ConsensusParams: simtestutil.DefaultConsensusParams,
 			AppStateBytes:   stateBytes,
 		})
-		a.Commit()
+		// no Commit here: as on a real chain the genesis state is committed together with block 1, whose
+		// BeginBlock runs at height 1 (several SDK modules and, potentially, hub code special-case it)
 	}()
 	if initErr != nil {
 		s.Close()
 		return nil, initErr
 	}
-	s.Height = 1
+	s.Height = 0
+	s.hdr = tmproto.Header{ChainID: ChainID, Height: 1, Time: s.Time}
 	return s, nil
 }
 
@@ -295,7 +297,8 @@ func (s *Sim) Ctx() sdk.Context {
 
 // QueryCtx returns a context usable outside a block (reads committed state through the check state).
 func (s *Sim) QueryCtx() sdk.Context {
-	if s.InBlock {
+	if s.InBlock || s.Height == 0 {
+		// before the first block the genesis state lives in the deliver state only
 		return s.Ctx()
 	}
 	return s.App.NewContext(true, tmproto.Header{ChainID: ChainID, Height: s.Height, Time: s.Time}).WithEventManager(sdk.NewEventManager())
